@@ -401,6 +401,9 @@ class SimpleCfg:
         return {"name": self.name, "source": self.source(), "std": self.std, "compiler": self.compiler, "extra": self.extra, "san": self.san, "opt": self.opt}
 
 
+# non-relocatable elements no larger than a pointer (tiny_main.cpp)
+TINY_QUICK = [SimpleCfg("tiny", "tiny_main.cpp", "c++17", extra=["-DAMC_NONSTD_FEATURES"]), SimpleCfg("tiny", "tiny_main.cpp", "c++14", extra=["-DAMC_NONSTD_FEATURES"])]
+TINY_THOROUGH = [SimpleCfg("tiny", "tiny_main.cpp", "c++20", extra=["-DAMC_NONSTD_FEATURES"]), SimpleCfg("tiny", "tiny_main.cpp", "c++17", compiler="clang++-14", extra=["-DAMC_NONSTD_FEATURES"])]
 # the library with its default template arguments and ordinary element types (defaults_main.cpp)
 DEFAULTS_QUICK = [SimpleCfg("dflt", "defaults_main.cpp", "c++17", extra=["-DAMC_NONSTD_FEATURES"])]
 DEFAULTS_THOROUGH = [SimpleCfg("dflt", "defaults_main.cpp", "c++20", extra=["-DAMC_NONSTD_FEATURES"]),
